@@ -6,7 +6,7 @@ name=$1; shift
 patch=/verif/seeded/$name/patch.diff
 git -C /repo diff --quiet || { echo "/repo has local changes; refusing"; exit 2; }
 git -C /repo apply "$patch" || { echo "patch does not apply"; exit 2; }
-trap 'git -C /repo checkout -- . ; rm -f /verif/evidence/replays/*.json' EXIT
+trap 'git -C /repo checkout -- . ; rm -f /verif/evidence/replays/*.json; (cd /verif && /venv/bin/python -c "import sys; sys.path.insert(0, \"lib\"); import common; [common.run_translator(t, []) for t in (\"tr_tables\", \"tr_kbd\")]") >/dev/null 2>&1' EXIT
 for c in "$@"; do
   out=$(/verif/bin/check $c --tier ${TIER:-quick} 2>&1)
   rc=$?
